@@ -780,3 +780,137 @@ Proof.
   destruct (Hr s0 cs Hi Hc) as [rs [E1 E2]].
   unfold dom_read. rewrite E1, apply_records_views, E2, (C05_records_to_tree t cs s0 Ht Hc). reflexivity.
 Qed.
+
+(* ================================================================================================ *)
+(* Part 3 (C06): the normalisation is idempotent; the normalised tree issues the same calls with the derived
+   arguments made explicit *)
+
+Section Suffix.
+  Context {A : Type} (eqb : A -> A -> bool) (eqb_refl : forall a, eqb a a = true).
+  Lemma prefixb_self_app : forall p l : list A, prefixb eqb p (p ++ l) = true.
+  Proof. induction p as [|x p IH]; intro l; [reflexivity|]. cbn. rewrite eqb_refl. apply IH. Qed.
+  Lemma suffixb_app_self : forall s t : list A, suffixb eqb s (t ++ s) = true.
+  Proof.
+    intros s t. unfold suffixb, frev. rewrite <- !rev_alt, rev_app_distr. apply prefixb_self_app.
+  Qed.
+End Suffix.
+
+Lemma final_text_idem : forall nl t, final_text nl (final_text nl t) = final_text nl t.
+Proof.
+  intros nl t. unfold final_text at 1.
+  assert (E : suffixb N.eqb nl (final_text nl t) = true).
+  { unfold final_text. destruct (suffixb N.eqb nl t) eqn:S; [exact S | apply suffixb_app_self; apply N.eqb_refl]. }
+  rewrite E. reflexivity.
+Qed.
+
+Lemma is_nil_app {A} : forall a b : list A, is_nil a = false -> is_nil (a ++ b) = false.
+Proof. intros [|x a] b H; [discriminate | reflexivity]. Qed.
+
+Lemma final_text_nonnil : forall nl t, is_nil t = false -> is_nil (final_text nl t) = false.
+Proof. intros nl t H. unfold final_text. destruct (suffixb _ _ _); [exact H | apply is_nil_app; exact H]. Qed.
+
+Lemma declared_guess : forall t l nl, guess_line_endings_text t = (l, nl) -> declared_newline (WStr (ascii_text l)) = Some nl.
+Proof.
+  intros t l nl H. unfold guess_line_endings_text in H.
+  destruct (find _ _ _); [destruct (suffixb _ _ _)|]; injection H as <- <-; vm_compute; reflexivity.
+Qed.
+
+Lemma pre_resolve_idem : forall le t le' nl t', pre_resolve le t = (le', nl) -> pre_resolve le' t' = (le', nl).
+Proof.
+  intros le t le' nl t' H. unfold pre_resolve in *. destruct (declared_newline le) as [n|] eqn:D.
+  - injection H as <- <-. rewrite D. reflexivity.
+  - destruct (guess_line_endings_text t) as [l n] eqn:G. injection H as <- <-.
+    rewrite (declared_guess t l n G). reflexivity.
+Qed.
+
+(* lookups in a canonical dict *)
+Definition is_none (v : wv) : bool := match v with WNone => true | _ => false end.
+Lemma present_cons : forall k v rest, present ((k, v) :: rest) = if is_none v then present rest else (k, v) :: present rest.
+Proof. intros k v rest. destruct v; reflexivity. Qed.
+
+Lemma not_key_get {V} : forall k (l : list (bytes * V)), existsb (fun p => beq k (fst p)) l = false -> assoc_get beq k l = None.
+Proof.
+  induction l as [|[k' v] l IH]; [reflexivity|]. cbn [existsb fst assoc_get]. intro H.
+  apply orb_false_iff in H. destruct H as [H1 H2]. rewrite H1. apply IH. exact H2.
+Qed.
+
+Lemma get_present : forall l k, keys_unique l = true ->
+  assoc_get beq k (present l) = match assoc_get beq k l with Some WNone => None | x => x end.
+Proof.
+  induction l as [|[k' v] l IH]; intros k H; [reflexivity|].
+  cbn [keys_unique] in H. apply andb_true_iff in H. destruct H as [H1 H2]. apply negb_true_iff in H1.
+  rewrite present_cons. cbn [assoc_get]. destruct (is_none v) eqn:N.
+  - destruct v; try discriminate N. rewrite (IH k H2). destruct (beq k k') eqn:E; [|reflexivity].
+    apply beq_true_eq in E. subst k'. rewrite (not_key_get _ _ H1). reflexivity.
+  - cbn [assoc_get]. destruct (beq k k'); [destruct v; try discriminate N; reflexivity | apply IH; exact H2].
+Qed.
+
+Lemma kw_present : forall l k, keys_unique l = true -> kw (present l) k = kw l k.
+Proof.
+  intros l k H. unfold kw. rewrite (get_present l (B k) H). destruct (assoc_get beq (B k) l) as [[]|]; reflexivity.
+Qed.
+
+Lemma kw_opt_present : forall l k v, keys_unique l = true -> kw_opt l k = Some v -> is_none v = false ->
+  kw_opt (present l) k = Some v.
+Proof.
+  intros l k v H G N. unfold kw_opt in *. rewrite (get_present l (B k) H), G. destruct v; try discriminate N; reflexivity.
+Qed.
+
+Lemma only_keys_present : forall l al, only_keys l al = true -> only_keys (present l) al = true.
+Proof.
+  intros l al. unfold only_keys, present. induction l as [|p l IH]; [reflexivity|].
+  cbn [forallb filter]. intro H. apply andb_true_iff in H. destruct H as [H1 H2].
+  destruct (match snd p with WNone => false | _ => true end); [cbn [forallb]; rewrite H1|]; apply IH; exact H2.
+Qed.
+
+Lemma hv_not_none : forall v, hv_ok v = true -> is_none v = false.
+Proof. intros [] H; try discriminate H; reflexivity. Qed.
+
+(* ---- preamble ---- *)
+Lemma pre_norm_facts : forall a b c d, hv_ok b = true ->
+  let o' := present [(B "encoding", a); (B "indent", b); (B "line_endings", c); (B "mimetype", d)] in
+  kw o' "encoding" = a /\ kw_opt o' "indent" = Some b /\ kw o' "line_endings" = c /\ kw o' "mimetype" = d /\
+  only_keys o' ["encoding"; "indent"; "line_endings"; "mimetype"] = true.
+Proof.
+  intros a b c d Hb o'. unfold o'.
+  repeat split; try (rewrite kw_present by reflexivity; reflexivity).
+  - apply kw_opt_present; [reflexivity | reflexivity | apply hv_not_none; exact Hb].
+  - apply only_keys_present. reflexivity.
+Qed.
+
+Inductive opt_equiv : option call -> option call -> Prop :=
+| oe_none : opt_equiv None None
+| oe_some : forall c c', calls_equiv c c' -> opt_equiv (Some c) (Some c').
+
+Lemma pre_norm : forall p oc, typed_opts (p_opts p) = true -> call_preamble p = Ok oc ->
+  exists oc', call_preamble (norm_psec p) = Ok oc' /\ opt_equiv oc oc'.
+Proof.
+  intros [o ct] oc Ht H. unfold call_preamble in H. unfold norm_psec. cbn [p_content p_opts] in *.
+  destruct ct as [t|]; [|injection H as <-; exists None; split; [reflexivity | constructor]].
+  destruct (is_nil t) eqn:Nil; [injection H as <-; exists None; split; [reflexivity | constructor]|].
+  destruct (negb (only_keys o _)); [discriminate|]. injection H as <-.
+  destruct (pre_resolve (kw o "line_endings") t) as [le nl] eqn:R.
+  assert (Hi : hv_ok (indent_or_default (kw_opt o "indent")) = true).
+  { destruct (indent_default_ok o Ht) as [E|E]; [|exact E].
+    destruct (kw_opt o "indent") eqn:K; [|discriminate E]. cbn in E. subst w.
+    pose proof (kw_opt_ok _ _ _ Ht K) as F. discriminate F. }
+  destruct (pre_norm_facts (kw o "encoding") _ le (kw o "mimetype") Hi) as [F1 [F2 [F3 [F4 F5]]]].
+  unfold call_preamble. cbn [p_content p_opts]. rewrite (final_text_nonnil nl t Nil), F5. cbn [negb].
+  rewrite F1, F2, F3, F4. eexists. split; [reflexivity|]. constructor.
+  pose proof (ce_pre t (kw o "encoding") (kw_opt o "indent") (kw o "line_endings") (kw o "mimetype")) as C.
+  rewrite R in C. exact C.
+Qed.
+
+Lemma norm_psec_idem : forall p, typed_opts (p_opts p) = true -> norm_psec (norm_psec p) = norm_psec p.
+Proof.
+  intros [o ct] Ht. unfold norm_psec at 2 3. cbn [p_content p_opts] in *.
+  destruct ct as [t|]; [|reflexivity]. destruct (is_nil t) eqn:Nil; [reflexivity|].
+  destruct (pre_resolve (kw o "line_endings") t) as [le nl] eqn:R.
+  assert (Hi : hv_ok (indent_or_default (kw_opt o "indent")) = true).
+  { destruct (indent_default_ok o Ht) as [E|E]; [|exact E].
+    destruct (kw_opt o "indent") eqn:K; [|discriminate E]. cbn in E. subst w.
+    pose proof (kw_opt_ok _ _ _ Ht K) as F. discriminate F. }
+  destruct (pre_norm_facts (kw o "encoding") _ le (kw o "mimetype") Hi) as [F1 [F2 [F3 [F4 F5]]]].
+  unfold norm_psec. cbn [p_content p_opts]. rewrite (final_text_nonnil nl t Nil), F1, F2, F3, F4.
+  rewrite (pre_resolve_idem _ _ _ _ (final_text nl t) R). cbn [indent_or_default]. rewrite final_text_idem. reflexivity.
+Qed.
